@@ -22,6 +22,9 @@ EXTENDS Integers, Sequences, FiniteSets, TLC
 
 U16LE(b, p) == b[p] + 256 * b[p + 1]
 U32LE(b, p) == b[p] + 256 * b[p + 1] + 65536 * b[p + 2] + 16777216 * b[p + 3]
+\* a 32-bit field that is only ever compared for equality (class ids): TLC's integers are 32-bit signed, so the
+\* field is read as its two's-complement value - ids of 2^31 and above become negative, distinct ids stay distinct
+Id32LE(b, p) == b[p] + 256 * b[p + 1] + 65536 * b[p + 2] + 16777216 * (IF b[p + 3] < 128 THEN b[p + 3] ELSE b[p + 3] - 256)
 U32BE(w)    == w[4] + 256 * w[3] + 65536 * w[2] + 16777216 * w[1]
 FitsU31LE(b, p) == p + 3 <= Len(b) /\ b[p + 3] < 128
 
@@ -290,7 +293,7 @@ FrameOK(c) ==
 (* Chunk contents                                                            *)
 
 DecodeInst(d) ==
-    LET id   == U32LE(d, 1)
+    LET id   == Id32LE(d, 1)
         nl   == U32LE(d, 5)
         name == Slice(d, 9, nl)
         q    == 9 + nl
@@ -304,7 +307,7 @@ DecodeInst(d) ==
 
 \* n = number of instances of the class (from its INST chunk)
 DecodeProp(dialect, d, n) ==
-    LET id == U32LE(d, 1)
+    LET id == Id32LE(d, 1)
         nl == U32LE(d, 5)
         q  == 9 + nl
     IN IF Len(d) < q THEN [class |-> id, name |-> Slice(d, 9, nl), present |-> FALSE]
